@@ -676,4 +676,97 @@ example : ∃ S, polygon (opsK ℚ) 3 20 []
   simp only [xParRings, xPar, xCross]
   norm_num
 
+/-- The hypothesis that `polygon_within_trace_bound` used to carry (`∀ v, toU32 v + 1 < 2^32`) is false for
+    the exact instance — which is why it is now asked only of the intersection entries of the input. -/
+example : ¬ ∀ v : ℚ, (opsK ℚ).toU32 v + 1 < 2 ^ 32 := by
+  intro h
+  have := h (2 ^ 32)
+  have e : (opsK ℚ).toU32 (2 ^ 32) = 2 ^ 32 := by
+    show ⌊((2 : ℚ) ^ 32)⌋.toNat = 2 ^ 32
+    have : ((2 : ℚ) ^ 32) = ((2 ^ 32 : ℕ) : ℚ) := by norm_num
+    rw [this, Int.floor_natCast, Int.toNat_natCast]
+  omega
+
+/-- Non-vacuity of `polygon_within_vertex_bound`, `polygon_within_trace_bound` and
+    `polygon_boundary_complete`: the ring `(0,0) (4,1) (4,4) (0,4) (0,0)` at zoom 3 has a cover; every tile
+    of it has zoom 3 and lies in columns / rows 0..4 (the no-wrap hypothesis of `polygon_within_trace_bound`
+    is discharged inside `polygon_within_vertex_bound`), and the tile `(1, 0)` — whose open square the edge
+    `(0,0) → (4,1)` enters at `t = 3/8` — is in it. -/
+example : ∃ S, polygon (opsK ℚ) 3 20 []
+      [[(⟨0, 0⟩ : Pt ℚ), ⟨4, 1⟩, ⟨4, 4⟩, ⟨0, 4⟩, ⟨0, 0⟩]] = .ok S ∧
+    (∀ t ∈ S, t.z = 3 ∧ t.x ≤ 4 ∧ t.y ≤ 4) ∧ (⟨1, 0, 3⟩ : Tile) ∈ S := by
+  have hr : ∀ r ∈ [[(⟨0, 0⟩ : Pt ℚ), ⟨4, 1⟩, ⟨4, 4⟩, ⟨0, 4⟩, ⟨0, 0⟩]],
+      r.head? = r.getLast? ∧ ∀ p ∈ r, 0 ≤ p.x ∧ 0 ≤ p.y := by
+    intro r hr
+    rw [List.mem_singleton.mp hr]
+    refine ⟨rfl, ?_⟩
+    intro p hp
+    simp only [List.mem_cons, List.not_mem_nil, or_false] at hp
+    rcases hp with rfl | rfl | rfl | rfl | rfl <;> norm_num
+  have hbox : ∀ r ∈ [[(⟨0, 0⟩ : Pt ℚ), ⟨4, 1⟩, ⟨4, 4⟩, ⟨0, 4⟩, ⟨0, 0⟩]], ∀ p ∈ r,
+      (0 : ℚ) ≤ p.x ∧ p.x ≤ 4 ∧ (0 : ℚ) ≤ p.y ∧ p.y ≤ 4 := by
+    intro r hr p hp
+    rw [List.mem_singleton.mp hr] at hp
+    simp only [List.mem_cons, List.not_mem_nil, or_false] at hp
+    rcases hp with rfl | rfl | rfl | rfl | rfl <;> norm_num
+  obtain ⟨S, hS⟩ := polygon_closed_ok 3 20 [] _ hr (by
+    intro r hr e he
+    rw [List.mem_singleton.mp hr] at he
+    simp only [List.drop_succ_cons, List.drop_zero, List.zip_cons_cons, List.zip_nil_right,
+      List.mem_cons, List.not_mem_nil, or_false] at he
+    rcases he with rfl | rfl | rfl | rfl <;> norm_num)
+  refine ⟨S, hS, ?_, ?_⟩
+  · intro t ht
+    obtain ⟨hz, _, hx, _, hy⟩ := polygon_within_vertex_bound 3 20 _ S 0 4 0 4
+      (fun r hr' => (hr r hr').2) hbox (by norm_num) hS t ht
+    exact ⟨hz, by exact_mod_cast hx, by exact_mod_cast hy⟩
+  · exact polygon_boundary_complete 3 20 [] _ S (fun r hr' => (hr r hr').2) hS
+      [⟨0, 0⟩, ⟨4, 1⟩, ⟨4, 4⟩, ⟨0, 4⟩, ⟨0, 0⟩] (by simp) (⟨0, 0⟩, ⟨4, 1⟩) (by simp) (by simp)
+      1 0 (3 / 8) (by norm_num) (by norm_num) (by norm_num) (by norm_num) (by norm_num) (by norm_num)
+
+/-- Non-vacuity of `cover_multiPolygon_union`: two closed squares (tile space, zoom 3, identity `frac`)
+    have covers, so the multi-polygon's cover is their union. -/
+example : ∃ S, cover (opsK ℚ) id 3 20 (.multiPolygon
+      [[[(⟨0, 0⟩ : Pt ℚ), ⟨2, 0⟩, ⟨2, 2⟩, ⟨0, 2⟩, ⟨0, 0⟩]], [[⟨4, 4⟩, ⟨6, 4⟩, ⟨6, 6⟩, ⟨4, 6⟩, ⟨4, 4⟩]]]) = .ok S ∧
+    ∀ t, t ∈ S ↔ ∃ p ∈ [[[(⟨0, 0⟩ : Pt ℚ), ⟨2, 0⟩, ⟨2, 2⟩, ⟨0, 2⟩, ⟨0, 0⟩]],
+        [[⟨4, 4⟩, ⟨6, 4⟩, ⟨6, 6⟩, ⟨4, 6⟩, ⟨4, 4⟩]]],
+      ∃ s, cover (opsK ℚ) id 3 20 (.polygon p) = .ok s ∧ t ∈ s := by
+  apply cover_multiPolygon_union
+  intro p hp
+  rw [cover_polygon_eq]
+  simp only [List.mem_cons, List.not_mem_nil, or_false] at hp
+  rcases hp with rfl | rfl
+  · apply polygon_closed_ok
+    · intro r hr
+      simp only [List.map_id_fun, id_eq, List.map_cons, List.map_nil, List.mem_cons, List.not_mem_nil,
+        or_false] at hr
+      subst hr
+      refine ⟨rfl, ?_⟩
+      intro q hq
+      simp only [List.mem_cons, List.not_mem_nil, or_false] at hq
+      rcases hq with rfl | rfl | rfl | rfl | rfl <;> norm_num
+    · intro r hr e he
+      simp only [List.map_id_fun, id_eq, List.map_cons, List.map_nil, List.mem_cons, List.not_mem_nil,
+        or_false] at hr
+      subst hr
+      simp only [List.drop_succ_cons, List.drop_zero, List.zip_cons_cons, List.zip_nil_right,
+        List.mem_cons, List.not_mem_nil, or_false] at he
+      rcases he with rfl | rfl | rfl | rfl <;> norm_num
+  · apply polygon_closed_ok
+    · intro r hr
+      simp only [List.map_id_fun, id_eq, List.map_cons, List.map_nil, List.mem_cons, List.not_mem_nil,
+        or_false] at hr
+      subst hr
+      refine ⟨rfl, ?_⟩
+      intro q hq
+      simp only [List.mem_cons, List.not_mem_nil, or_false] at hq
+      rcases hq with rfl | rfl | rfl | rfl | rfl <;> norm_num
+    · intro r hr e he
+      simp only [List.map_id_fun, id_eq, List.map_cons, List.map_nil, List.mem_cons, List.not_mem_nil,
+        or_false] at hr
+      subst hr
+      simp only [List.drop_succ_cons, List.drop_zero, List.zip_cons_cons, List.zip_nil_right,
+        List.mem_cons, List.not_mem_nil, or_false] at he
+      rcases he with rfl | rfl | rfl | rfl <;> norm_num
+
 end Orb.TileCover
